@@ -512,6 +512,12 @@ def shortest(edges, src, dst):
 WRITE_OPS = ("=", "+=", "-=", "*=", "/=", "%=", "&=", "|=", "^=", "<<=", ">>=", "++", "--")
 
 
+def pointer_like(t):
+    """types with reference semantics under [] and *: raw pointers, iterators, locators, views"""
+    t = t or ""
+    return t.rstrip().rstrip("&").rstrip().rstrip("const").rstrip().endswith("*") or any(w in t for w in ("iterator", "locator", "image_view", "_ptr"))
+
+
 def canonize(f, inline=True):
     """Deep copy of a function record in which parameters are named $i, the variables of for-loops #k (order of appearance),
     range-for variables @k, lambda parameters &k, and the remaining locals %k; with `inline`, a local that is initialised at
@@ -539,8 +545,13 @@ def canonize(f, inline=True):
             elif k == "Member" and not n.get("arrow"):
                 n = strip(n.get("base"))
             elif k == "Subscript":
-                n = strip(n.get("base"))
+                b = strip(n.get("base"))
+                if pointer_like((b or {}).get("type", "")):
+                    return None         # p[i] = v writes the pointee, the pointer keeps its value
+                n = b
             elif k == "Call" and n.get("op") == "[]" and n.get("args"):
+                if pointer_like(n["callee"].get("cls", "")) or pointer_like((strip(n["args"][0]) or {}).get("type", "")):
+                    return None
                 n = strip(n["args"][0])
             elif k == "Call" and n.get("member_call") and n.get("obj") is not None and n["callee"]["name"].split("::")[-1] in ("operator[]", "at", "front", "back"):
                 n = strip(n["obj"])
